@@ -2,6 +2,7 @@
   Props/C08.lean — actions: side effects once, in order, then RETURN/THROW once; the handler's only.
 -/
 import TrompModel.Props.C07
+import TrompModel.Lemmas.Nested
 
 namespace Tromp.C08
 open Tromp World
@@ -119,5 +120,33 @@ example : (ex.run [.call 0 1 [2], .call 0 1 [1], .call 0 1 [5], .sat 1]).2 =
      [.evalWith 1 0, .evalWith 1 1, .ok 0 1, .evalFx 1 0, .evalFx 1 1, .result (.threw .std)],
      [.ok 0 0, .evalRet 0, .result (.val 100)],
      [.answer true]] := by decide
+
+/-! ### re-entrant side effects (a SIDE_EFFECT that calls a mock function) -/
+
+/-- without re-entrant side effects the re-entrant semantics is the plain one: everything above applies. -/
+theorem no_reentrancy_is_plain_call (fuel : Nat) (w : World) (o f : Nat) (a : Args) :
+    callN noNest fuel w o f a = w.step (.call o f a) := callN_noNest fuel w o f a
+
+/-- **C08, nesting.**  Side effect `i` of the handling expectation that calls `o'.f'(a')`: its own evaluation event
+    comes first, the events of the nested call (its clause evaluations, reports, OK report, trace record) follow
+    immediately, and only then — unless the nested call or the side effect itself threw, which ends the action list —
+    the remaining side effects run, on the world the nested call left. -/
+theorem reentrant_effect_events (nest : NestMap) (fuel e : Nat) (a : Args) (fx : Args → Option Exc)
+    (rest : List (Args → Option Exc)) (i : Nat) (w : World) (o' f' : Nat) (a' : Args) (hn : nest e i = some (o', f', a')) :
+    runEffectsN nest (fuel + 1) e a (fx :: rest) i w =
+      (let r := callN nest fuel w o' f' a'
+       match resultOf r.2 with
+       | some (.threw x) => (r.1, Ev.evalFx e i :: dropResult r.2, some x)
+       | _ =>
+         match fx a with
+         | some x => (r.1, Ev.evalFx e i :: dropResult r.2, some x)
+         | none =>
+           let s := runEffectsN nest (fuel + 1) e a rest (i + 1) r.1
+           (s.1, Ev.evalFx e i :: dropResult r.2 ++ s.2.1, s.2.2)) := by
+  rw [runEffectsN]
+  simp only [hn]
+  cases hres : resultOf (callN nest fuel w o' f' a').2 with
+  | none => rfl
+  | some r => cases r <;> rfl
 
 end Tromp.C08
